@@ -683,6 +683,64 @@ async fn exec<const N: usize>(st: &mut St<N>, ctx: &mut Ctx, toks: &[&str]) {
         }
         #[cfg(pearl_verif)]
         ("clearfail", []) => { pearl::verif_io::clear_failpoints(); ctx.emit("clearfail"); }
+        ("overlap", [ms, rest @ ..]) => {
+            // two operations overlapping in time: `overlap <ms> <op1...> | <op2...>`: op1 is started, op2 is started <ms>
+            // later while op1 may still be running (typically held back by a failpoint delay), both are awaited.
+            use std::sync::Arc;
+            let storage = match st.storage.take() { Some(s) => Arc::new(s), None => { ctx.emit("overlap NoStorage"); return; } };
+            let ms: u64 = ms.parse().unwrap();
+            let split = rest.iter().position(|x| *x == "|").expect("overlap needs `|`");
+            let o1: Vec<String> = rest[..split].iter().map(|x| x.to_string()).collect();
+            let o2: Vec<String> = rest[split + 1..].iter().map(|x| x.to_string()).collect();
+            async fn one<const N: usize>(s: Arc<Storage<ArrayKey<N>>>, o: Vec<String>) -> String {
+                let k = |h: &str| key_of::<N>(h);
+                match o[0].as_str() {
+                    "close_active" => match s.try_close_active_blob().await { Ok(()) => "close_active ok".into(), Err(e) => format!("close_active Err {}", err_class(&e)) },
+                    "create_active" => match s.try_create_active_blob().await { Ok(()) => "create_active ok".into(), Err(e) => format!("create_active Err {}", err_class(&e)) },
+                    "restore_active" => match s.try_restore_active_blob().await { Ok(()) => "restore_active ok".into(), Err(e) => format!("restore_active Err {}", err_class(&e)) },
+                    "fsync" => match s.fsyncdata().await { Ok(()) => "fsync ok".into(), Err(_) => "fsync Err".into() },
+                    "W" => {
+                        let data = gen_data(o[5].parse().unwrap(), o[4].parse().unwrap());
+                        let r = match meta_of(&o[3]) {
+                            Some(m) => s.write_with(k(&o[1]), data.into(), BlobRecordTimestamp::new(o[2].parse().unwrap()), m).await,
+                            None => s.write(k(&o[1]), data.into(), BlobRecordTimestamp::new(o[2].parse().unwrap())).await,
+                        };
+                        match r { Ok(()) => "W ok".into(), Err(e) => format!("W Err {}", err_class(&e)) }
+                    }
+                    "D" => match s.delete(k(&o[1]), BlobRecordTimestamp::new(o[2].parse().unwrap()), o[4] == "1").await { Ok(n) => format!("D {}", n), Err(e) => format!("D Err {}", err_class(&e)) },
+                    x => format!("HARNESS-ERROR overlap op {}", x),
+                }
+            }
+            let (s1, s2) = (storage.clone(), storage.clone());
+            let h1 = tokio::spawn(async move { one::<N>(s1, o1).await });
+            tokio::time::sleep(Duration::from_millis(ms)).await;
+            let h2 = tokio::spawn(async move { one::<N>(s2, o2).await });
+            let both = tokio::time::timeout(Duration::from_secs(15), async { (h1.await, h2.await) }).await;
+            match both {
+                Ok((a, b)) => {
+                    ctx.emit(format!("overlap {} | {}", a.unwrap_or_else(|_| "Panic".into()), b.unwrap_or_else(|_| "Panic".into())));
+                    match Arc::try_unwrap(storage) { Ok(s) => st.storage = Some(s), Err(_) => ctx.emit("HARNESS-ERROR storage still shared") }
+                }
+                Err(_) => { std::mem::forget(storage); ctx.emit("overlap Timeout"); }
+            }
+        }
+        #[cfg(pearl_verif)]
+        ("truedirty_all", []) => {
+            // per blob file of the work directory: physical length minus what the last successful sync covered at its entry
+            let _ = st.take_events();
+            let mut parts = Vec::new();
+            if let Ok(rd) = std::fs::read_dir(&st.dir) {
+                let mut names: Vec<_> = rd.flatten().filter(|e| e.file_name().to_string_lossy().ends_with(".blob")).collect();
+                names.sort_by_key(|e| e.file_name());
+                for e in names {
+                    let p = e.path();
+                    let len = std::fs::metadata(&p).map(|m| m.len()).unwrap_or(0);
+                    let cov = st.synced.get(&p.to_string_lossy().to_string()).copied().unwrap_or(0);
+                    parts.push(format!("{}:{}", e.file_name().to_string_lossy(), len.saturating_sub(cov)));
+                }
+            }
+            ctx.emit(format!("truedirty_all {}", parts.join(" ")));
+        }
         #[cfg(pearl_verif)]
         ("truedirty", []) => {
             // un-synced bytes of the ACTIVE blob file computed from the tap alone: physical length minus what the
